@@ -203,3 +203,20 @@ def hostile_line(rnd):
                        b"foo:1|c|@bar", b"foo:1|c|@nan", b"foo:NaN|c", b"foo:1:2", b"foo:1|c:x", b"foo:1:2|c",
                        b"a[b:1|c", b"a]b:1|c", b"a[]b:1|c", b"a[b=c][d=e]:1|c", b"foo:1|c|#", b"foo:1|c|#,", b"foo:1|c|#a:",
                        b"foo:1|c|#:b", b"foo:1|c|##a:b", b"foo#:1|c", b"foo,:1|c", b"foo#a=b,:1|c", b"foo#,a=b:1|c"])
+
+
+def bound_rates(line, floor=1e-4):
+    """Sampling rates between 0 and `floor` multiply one line into more than 1/floor events (the known finding
+    sampling-rate-amplification, exercised by its own directed case): everywhere else they are replaced by 0.5, whatever
+    spelling the mutations produced (decimal, exponent, hexadecimal float)."""
+    import re
+
+    def fix(m):
+        tok = m.group(1)
+        t = tok.decode("latin1").strip().replace("_", "")
+        try:
+            r = float.fromhex(t) if t.lower().lstrip("+-").startswith("0x") else float(t)
+        except (ValueError, OverflowError):
+            return m.group(0)
+        return b"@0.5" if 0 < abs(r) < floor else m.group(0)
+    return re.sub(rb"@([^|:\n@#,]*)", fix, line)
